@@ -58,7 +58,10 @@ ReqCoords == {
     <<Bad("a"), NumS("0", 0), NumS("0", 0)>>, <<NumS("2", 2), Bad("x"), NumS("0", 0)>>, <<NumS("2", 2), NumS("1", 1), Bad("y")>>,
     <<NumS("2", 2), Bad("-1"), NumS("0", 0)>>, <<NumS("2", 2), Big("4294967296"), NumS("0", 0)>>,
     <<NumS("2", 2), NumS("1", 1), NumS("0.pbf", 0)>>, <<NumS("2", 2), NumS("3", 3), NumS("2.png", 2)>>, <<NumS("2", 2), NumS("1", 1), NumS("00", 0)>>,
-    <<NumS("2", 2), NumS("1", 1), Bad("٣")>> }
+    <<NumS("2", 2), NumS("1", 1), Bad("٣")>>,
+    \* z / x that only START with digits (the digits alone address a stored tile): not numbers, hence 400
+    <<NumS("2", 2), Bad("1x"), NumS("0", 0)>>, <<Bad("2z"), NumS("1", 1), NumS("0", 0)>>, <<NumS("2", 2), Bad("1.5"), NumS("0", 0)>>,
+    <<Bad("2.5"), NumS("1", 1), NumS("0", 0)>>, <<NumS("2", 2), Bad("1e0"), NumS("0.pbf", 0)>> }
 \* 4294967295 is numeric for u32 but out of range for the level: class "num" with an irrelevant value > MaxIdx
 CoordFix(q) == IF q[2].txt = "4294967295" THEN <<q[1], [q[2] EXCEPT !.v = 2147483647], q[3]>> ELSE q
 
